@@ -6,7 +6,7 @@ of the property it targets (plus any extra properties listed in meta.json["also"
 meta.json["regression"] the exit code and the violation signatures that are NOT matched by known_findings.json.
 Prints one line per seed; exits 1 if a seed is not detected.
 
-usage: tools/seed_regress.py [name-or-property ...] [--jobs N]   (N seeds evaluated concurrently; each check already
+usage: tools/seed_regress.py [name-or-property ...] [--jobs N] [--seed S]   (N seeds evaluated concurrently; each check already
 uses up to 16 processes, so N > 2 only makes sense on an otherwise idle machine)
 """
 import concurrent.futures
@@ -20,20 +20,25 @@ import seedlib  # noqa: E402
 ROOT = seedlib.ROOT
 
 
+VSEED = [0]  # VERIF_SEED of the checks; a non-zero seed is a robustness probe and does not rewrite meta.json
+
+
 def one(name):
     d = os.path.join(ROOT, "seeded", name)
     meta = json.load(open(os.path.join(d, "meta.json")))
-    props = [meta["property"]] + list(meta.get("also", []))
+    props = [meta["property"]] + (list(meta.get("also", [])) if VSEED[0] == 0 else [])
     try:
         with seedlib.scratch_repo(os.path.join(d, "patch.diff")) as changed:
-            res = {p: seedlib.run_check(p, changed) for p in props}
+            res = {p: seedlib.run_check(p, changed, seed=VSEED[0]) for p in props}
     except RuntimeError as e:
-        meta["regression"] = {"status": str(e)}
-        json.dump(meta, open(os.path.join(d, "meta.json"), "w"), indent=1)
+        if VSEED[0] == 0:
+            meta["regression"] = {"status": str(e)}
+            json.dump(meta, open(os.path.join(d, "meta.json"), "w"), indent=1)
         return name, None, str(e)
     det = any(v["exit"] == 1 and v["signatures"] for v in res.values())
-    meta["regression"] = {"detected": det, "checks": res}
-    json.dump(meta, open(os.path.join(d, "meta.json"), "w"), indent=1)
+    if VSEED[0] == 0:
+        meta["regression"] = {"detected": det, "checks": res}
+        json.dump(meta, open(os.path.join(d, "meta.json"), "w"), indent=1)
     return name, det, {p: (v["exit"], len(v["signatures"])) for p, v in res.items()}
 
 
@@ -43,6 +48,10 @@ def main():
     if "--jobs" in argv:
         i = argv.index("--jobs")
         jobs = int(argv[i + 1])
+        del argv[i:i + 2]
+    if "--seed" in argv:
+        i = argv.index("--seed")
+        VSEED[0] = int(argv[i + 1])
         del argv[i:i + 2]
     names = [n for n in sorted(os.listdir(os.path.join(ROOT, "seeded")))
              if not argv or n in argv or n.split("-")[0] in argv]
